@@ -110,6 +110,11 @@ def gen(tier, seed):
     for pn in ("uint8", "two", "none"):
         for t in bad:
             add(rng(INT_PARENTS[pn]), t)
+    # Number.Less / Equal on (x, -x) and (-x, x) at equal precision (Type.resolve skips a restriction that is Equal to its parent)
+    for fd in (0, 1, 2, 9, 17, 18):
+        for v in (0, 1, 5, 100, 127, 150, 10 ** fd, P63 - 1, P63, P64 - 1):
+            for n1, n2 in ((0, 1), (1, 0), (0, 0), (1, 1)):
+                cases.append("less %d %d %d %d %d %d" % (v, fd, n1, v, fd, n2))
     for t in bad + ["1.5..2.5", "0.1|0.3", "1.55", "1e2", "-.5", "5."]:
         add(rng([(-P63, P63 - 1)], 1), t, 1, 1)
         add("-", t, 1, 2)
@@ -208,7 +213,9 @@ def prune(mods, rnd):
     rejected one; in half of the modules keep none, so that the resolved sets of the accepted ones are compared"""
     for mod in mods:
         bad = [n for n in mod["nodes"] if n["m"][0] == "err"]
-        keep = rnd.choice(bad)["name"] if bad and (mod["name"].startswith("f") or rnd.random() < 0.5) else None
+        nm = mod["name"]
+        want = True if nm.startswith("f") else int(nm[1:]) % 2 == 1 if nm.startswith("s") else rnd.random() < 0.5
+        keep = rnd.choice(bad)["name"] if bad and want else None
         mod["nodes"] = [n for n in mod["nodes"] if n["m"][0] == "ok" or n["name"] == keep]
         mod["reject"] = keep
 
@@ -398,9 +405,96 @@ def fixed_families():
     return out
 
 
+def gen_symmetric(rnd, idx):
+    """parents symmetric around zero (one part -a..a, or several parts with mirrored bounds); children that keep one end or
+    a sign-flipped sub-part (same magnitudes as the parent's bounds, other sign); grandchildren that are legal only in the
+    parent's wider set"""
+    import copy
+    kind = rnd.choice(["int8", "int16", "int32", "int64", "decimal64", "decimal64"])
+    fd = rnd.choice([1, 2, 9, 17, 18]) if kind == "decimal64" else 0
+    isl, dec, fd, KLO, KHI = kind_info(kind, fd)
+    L = lambda v: short_lit(v, fd, rnd)
+    a = rnd.choice([1, 5, 100, 127, KHI, KHI, rnd.randint(1, min(KHI, 10 ** 6)), rnd.randint(1, KHI),
+                    15 * 10 ** max(0, fd - 1)])
+    a = max(1, min(a, KHI))
+    shape = rnd.random()
+    if shape < 0.5 or a < 9:
+        parts = [(-a, a)]
+    elif shape < 0.75:
+        c = rnd.randint(1, a - 2)
+        parts = [(-c, c), (c + 2, a)] if rnd.random() < 0.5 else [(-a, -c - 2), (-c, c)]
+    else:
+        c = rnd.randint(1, a - 2)
+        b = rnd.randint(0, c - 1) if c > 1 else 0
+        parts = [(-a, -c), (c, a)] if rnd.random() < 0.5 else [(-a, -c - 2), (-b, b), (c + 2, a)]
+    ptext = " | ".join(("max" if y == KHI and rnd.random() < 0.5 else L(x)) if x == y else
+                       "%s..%s" % (L(x), "max" if y == KHI and rnd.random() < 0.5 else L(y)) for x, y in parts)
+    nodes = [dict(name="sym", parent=kind, text=ptext, leaf=False), dict(name="see_sym", parent="sym", text=None, leaf=True)]
+    lo0, hi0 = parts[0][0], parts[-1][1]
+    kids = set()
+    for x, y in parts:
+        for v in (x, y):
+            for w in (v, -v):
+                rest = [L(p) if p == q else "%s..%s" % (L(p), L(q)) for p, q in parts if (p, q) != (x, y)]
+                kids.add("|".join(sorted([L(w)] + rest, key=lambda t: rnd.random())) if rest and rnd.random() < 0.6 else L(w))
+    kids.update(["min", "max", L(hi0), L(lo0), "%s..%s" % (L(-hi0), L(-hi0)), "max|min" if len(parts) > 1 else "max"])
+    if len(parts) > 1:
+        kids.add("min|max")
+        kids.add(" | ".join("%s..%s" % (L(-y), L(-x)) for x, y in parts[::-1]))   # the mirrored set
+    kids = rnd.sample(sorted(kids), min(len(kids), 5))
+    grand = ["%s..0" % L(lo0), "0..%s" % L(hi0), "0", L(lo0), L(hi0), "min..max", ptext, "%s..%s" % (L(lo0), L(hi0))]
+    for i, k in enumerate(kids):
+        direct = rnd.random() < 0.4
+        if direct:
+            nodes.append(dict(name="kid%d" % i, parent="sym", text=k, leaf=True))
+        else:
+            nodes.append(dict(name="kid%d" % i, parent="sym", text=k, leaf=False))
+            nodes.append(dict(name="see_kid%d" % i, parent="kid%d" % i, text=None, leaf=True))
+            for gi, g in enumerate(rnd.sample(grand, 3)):
+                nodes.append(dict(name="g%d_%d" % (i, gi), parent="kid%d" % i, text=g, leaf=rnd.random() < 0.7))
+    if rnd.random() < 0.5:
+        head, tail = nodes[:2], nodes[2:]
+        rnd.shuffle(tail)
+        nodes = tail + head if rnd.random() < 0.3 else head + tail
+    m0 = dict(name="s%d" % (2 * idx), kind=kind, fd=fd, nodes=nodes)          # even: all rejected ones dropped, sets compared
+    m1 = dict(name="s%d" % (2 * idx + 1), kind=kind, fd=fd, nodes=copy.deepcopy(nodes))   # odd: one rejected one kept
+    return [m0, m1]
+
+
+def fixed_symmetric():
+    out = []
+
+    def fam(kind, fd, parent, child, grandchild):
+        for via_typedef in (0, 1):
+            nodes = [dict(name="alpha", parent=kind, text=parent, leaf=False)]
+            if via_typedef:
+                nodes += [dict(name="bravo", parent="alpha", text=child, leaf=False), dict(name="see", parent="bravo", text=None, leaf=True)]
+            else:
+                nodes += [dict(name="see", parent="alpha", text=child, leaf=True)]
+            out.append(dict(name="s%d" % (2 * (5000 + len(out))), kind=kind, fd=fd, nodes=nodes))
+            if via_typedef:
+                out.append(dict(name="f_sym%d" % len(out), kind=kind, fd=fd,
+                                nodes=nodes + [dict(name="wide", parent="bravo", text=grandchild, leaf=True)]))
+    for kind, a in (("int8", 100), ("int8", 127), ("int16", 32767), ("int32", 5), ("int64", P63 - 1)):
+        for child in ("%d" % a, "-%d" % a, "min", "max"):
+            fam(kind, 0, "-%d..%d" % (a, a), child, "-%d..0" % a if child in ("%d" % a, "max") else "0..%d" % a)
+    fam("int64", 0, "-9223372036854775807..max", "9223372036854775807", "min..0")
+    fam("int32", 0, "-5..5|7..9", "5|7..9", "-5..0")
+    fam("int32", 0, "-9..-7|-5..5|7..9", "-9..-7|5|7..9", "0")
+    fam("int32", 0, "-9..-7|7..9", "7|9", "-8")
+    for fd in (1, 2, 9, 17, 18):
+        fam("decimal64", fd, "-1.5..1.5", "max", "-1.5..0")
+        fam("decimal64", fd, "-1.5..1.5", "-1.5", "0..1.5")
+        q = "0." + "0" * (fd - 1) + "1"
+        fam("decimal64", fd, "-%s..%s" % (q, q), "-" + q, "0")
+    return out
+
+
 def run_modules(res, tier, seed):
     rnd = random.Random(seed * 7919 + 10)
-    mods = fixed_families() + [gen_family(rnd, i) for i in range(700 if tier == "quick" else 12000)]
+    mods = fixed_families() + fixed_symmetric() + [gen_family(rnd, i) for i in range(700 if tier == "quick" else 12000)]
+    for i in range(250 if tier == "quick" else 4000):
+        mods += gen_symmetric(rnd, i)
     evals = model_fold(mods)
     prune(mods, rnd)
     golines = lib.run_go([go_line(m) for m in mods])
@@ -423,7 +517,8 @@ def run_modules(res, tier, seed):
     return dict(modules=len(mods), model_links=evals, restrictions_checked=restr, leaves_compared=leaves, modules_with_one_rejected=rejected,
                 mismatches=mism, by_kind=kinds, sample_module=render_mod(mods[len(mods) // 2]),
                 rule="modules with typedef derivation chains (8 integer kinds, string/binary lengths, decimal64 at fd {1,2,3,9,17,18}) whose sets have "
-                     "interior gaps; several leaves/typedefs restrict DIFFERENT parents with byte-identical texts (numerals and min/max), statement "
+                     "interior gaps, and sets symmetric around zero restricted to one end / a sign-flipped part with grandchildren legal only "
+                     "in the wider set; several leaves/typedefs restrict DIFFERENT parents with byte-identical texts (numerals and min/max), statement "
                      "order varied; each module is parsed once and Process is run twice in one Modules value; model = Range.parseChildRanges folded "
                      "along each chain from the builtin base; Process error <=> the model rejects the (single) offending restriction; otherwise every "
                      "leaf's resolved part list equals the model's by value")
